@@ -177,7 +177,11 @@ func vh_C07_step(a []int) {
 	var cs []con
 	for i := 0; i < nc; i++ {
 		c := con{cn: []string{vPick("c.cn", "*", "a", "")}, dns: vhAttrList("c.dns", vChoice("c.ndns", 2)), mail: []string{vPick("c.mail", "*", "a")},
-			org: []string{vPick("c.org", "*", "a")}, roots: []string{vPick("c.roots", "*", "r1", "r2")}, uri: []string{vPick("c.uri", "*", "a")}}
+			org: []string{vPick("c.org", "*", "a")}, uri: []string{vPick("c.uri", "*", "a")}}
+		// the roots list may be absent altogether (a legal shape: `roots` left out of the layout)
+		if vChoice("c.nroots", 2) == 1 {
+			c.roots = []string{vPick("c.roots", "*", "r1", "r2")}
+		}
 		cs = append(cs, c)
 		step.CertificateConstraints = append(step.CertificateConstraints, CertificateConstraint{CommonName: c.cn[0], DNSNames: c.dns, Emails: c.mail, Organizations: c.org, Roots: c.roots, URIs: c.uri})
 	}
